@@ -119,8 +119,12 @@ def build(spec):
             bt.add_node(k, **attrs)
         for a, b in ms['to_edges']:
             bt.add_edge(a, b)
-        for typ, atoms, params in ms['to_inters']:
-            bt.add_interaction(typ, atoms, list(params))
+        for entry in ms['to_inters']:
+            typ, atoms, params = entry[:3]
+            if len(entry) > 3 and entry[3] is not None:
+                bt.add_interaction(typ, atoms, list(params), meta={'version': entry[3]})
+            else:
+                bt.add_interaction(typ, atoms, list(params))
         mapping = {f: {t: wval(w) for t, w in ws} for f, ws in ms['mapping']}
         maps['%s_%d' % (ms['name'], i)] = Mapping(bf, bt, mapping=mapping, references=dict(ms['refs']),
                                                   ff_from=ffa, ff_to=ffb, names=(ms['name'],))
@@ -441,7 +445,16 @@ def check_copies(spec, mol, mlist, out, outkeys, places, groups):
             for it in lst:
                 want.setdefault(typ, []).append((tuple(local[x] for x in it.atoms), tuple(it.parameters)))
     got = {typ: [(tuple(it.atoms), tuple(it.parameters)) for it in lst] for typ, lst in out.interactions.items() if lst}
-    if got != want:
+    # every placement must carry as many interactions per (type, atoms) as its block has
+    from collections import Counter
+    cw = Counter((typ, at) for typ, lst in want.items() for at, _ in lst)
+    cg = Counter((typ, at) for typ, lst in got.items() for at, _ in lst)
+    for key in sorted(set(cw) | set(cg)):
+        if cw[key] != cg[key]:
+            errs.append(('assemble_block_copy', 'interaction %s on particles %r: the block has %d term(s), the '
+                         'output has %d' % (key[0], key[1], cw[key], cg[key])))
+            break
+    if got != want and not any(c == 'assemble_block_copy' for c, _ in errs):
         errs.append(('assemble_block_copy', 'interactions differ from the copies of the block interactions'))
     return errs, order
 
@@ -585,6 +598,14 @@ def gen_ff(rng, feat):
                     to_inters.append(['bonds', [u, v], ['1', '0.%d' % rng.randint(1, 9), '1000']])
         if len(beads_all) >= 3 and rng.random() < 0.4:
             to_inters.append(['angles', beads_all[:3], ['2', '120', '25']])
+        if len(beads_all) >= 2 and rng.random() < 0.35:
+            # several terms on identical atoms (a multi-term dihedral): same version, different versions, or mixed
+            datoms = beads_all[:min(4, len(beads_all))]
+            nterm = rng.choice([2, 2, 3])
+            style = rng.choice(['same', 'same', 'different', 'mixed'])
+            for t in range(nterm):
+                ver = None if style == 'same' else (t + 1 if style == 'different' else (None if t < 2 else 1))
+                to_inters.append(['dihedrals', datoms, ['9', str(60 * t), str(2 + t), str(t + 1)], ver])
         if rng.random() < 0.15:
             to_inters.append(['constraints', beads_all[:2] if len(beads_all) > 1 else beads_all[:1] * 2, ['1', '0.3']])
         refs = []
@@ -794,7 +815,8 @@ for (cid, spec, meta, status, impl, errs, info, logs, ln), sent, mo in zip(recs,
     chk.count('topo=' + meta['topo'])
     chk.count('keys=' + meta['keys'])
     chk.count('placements=%s' % (npl if npl < 6 else '6+'))
-    for name, flag in (('first_matched_atom_not_lowest_key', info.get('first_not_min')), ('overlap', info.get('overlap')), ('overlap_noncontributing_atom', info.get('overlap_noncontributing')), ('spawned', info.get('spawned')), ('lost_atoms', info.get('lost')),
+    for name, flag in (('repeated_interaction_same_atoms', any(len({(e[0], tuple(e[1])) for e in m['to_inters']}) < len(m['to_inters']) for m in spec['mappings'])),
+                       ('first_matched_atom_not_lowest_key', info.get('first_not_min')), ('overlap', info.get('overlap')), ('overlap_noncontributing_atom', info.get('overlap_noncontributing')), ('spawned', info.get('spawned')), ('lost_atoms', info.get('lost')),
                        ('inter_bonds', info.get('inter_bonds')), ('warn_garbage', kinds[1]), ('warn_disconnected', kinds[2]),
                        ('warn_hydrogens', kinds[4]), ('two_residue_mapping', any(m['name'] == 'PAIR' for m in spec['mappings'])),
                        ('references', any(m['refs'] for m in spec['mappings'])), ('unexpected_log', other)):
